@@ -222,12 +222,31 @@ type blockedErr struct {
 // when compatible); none = every path of the task ended abnormally.
 func (e *Engine) runOneTask(st *State, depth int) []*State {
 	tasks := st.tasks
+	if len(tasks) == 0 {
+		panic(blockedErr{"no pending goroutine", st.G})
+	}
+	// first pass: a task that completes on its own - with the help of the goroutines it starts itself, but
+	// without any other pending goroutine having to run while it waits - is taken first: a pipeline then
+	// unwinds stage by stage.  Only when there is none are nested attempts made (a waiting task lets all the
+	// others run inside its own attempt), which costs re-execution on every rollback
+	for pass := 0; pass < 2; pass++ {
+		if sts, ok := e.tryTasks(st, tasks, depth, pass == 0); ok {
+			return sts
+		}
+	}
+	panic(blockedErr{"no pending goroutine can make progress", st.G})
+}
+
+func (e *Engine) tryTasks(st *State, tasks []Task, depth int, flat bool) (res []*State, done bool) {
 	for i, t := range tasks {
 		rest := make([]Task, 0, len(tasks)-1)
 		rest = append(rest, tasks[:i]...)
 		rest = append(rest, tasks[i+1:]...)
 		attempt := e.fork(st)
 		attempt.tasks = rest
+		if flat {
+			attempt.tasks = nil // the others are out of sight until this one is through
+		}
 		nA, nP, nF, nR, nU, nO := len(e.asserts), len(e.panics), len(e.fatals), len(e.reaches), len(e.unwinds), len(e.observes)
 		nCatch := len(e.catch)
 		var caught []int
@@ -257,14 +276,19 @@ func (e *Engine) runOneTask(st *State, depth int) []*State {
 			}
 			continue
 		}
+		if flat {
+			for _, r := range rs {
+				r.st.tasks = append(append([]Task(nil), rest...), r.st.tasks...)
+			}
+		}
 		rs = e.mergeResults(rs)
 		out := make([]*State, len(rs))
 		for k, r := range rs {
 			out[k] = r.st
 		}
-		return out
+		return out, true
 	}
-	panic(blockedErr{"no pending goroutine can make progress", st.G})
+	return nil, false
 }
 
 func (e *Engine) runPending(p *Path, depth int) []Result {
